@@ -99,7 +99,10 @@ impl TriePosition {
 
     /// Get the path to the current position.
     pub fn path(&self) -> &BitSlice<u8, Msb0> {
-        &self.path.view_bits::<Msb0>()[..self.depth as usize]
+        // A position that was deserialized (e.g. as part of a witness) may claim a depth beyond
+        // the key length; never slice past the key.
+        let depth = core::cmp::min(self.depth as usize, 256);
+        &self.path.view_bits::<Msb0>()[..depth]
     }
 
     /// Get the raw key at the current position.
